@@ -197,6 +197,12 @@ def build(tier, seed):
                          "(line breaks inside a cell included), the third row is validated; cells symbolic (len<=2)",
                          budget_s=300, replay=rpw2, functions=FUNCS + ("cutplace.validio.Writer.write_row",),
                          stubs=("S-CSVW _compat.csv_writer -> recorder", "S-FMT")))
+    from props.c14 import make_fixed_write
+    mkf, rpf = make_fixed_write(2, "none", (2, 2), {0: ("ab", "c")})
+    queries.append(Query("C07/writer-header/fixed-without-line-delimiter", "writer-header", mkf,
+                         "fixed Writer, line delimiter none, Header 0..1: the first row written is the header (if any), the second "
+                         "row (symbolic) is validated", budget_s=600, replay=rpf, functions=FUNCS + ("cutplace.rowio.FixedRowWriter.write_row",),
+                         stubs=("S-STREAM (recording write)", "S-FMT")))
     mk, rp = make_until()
     queries.append(Query("C07/until-option", "until", mk, "--until value n: every integer", budget_s=120,
                          expect=("exit2", "all", "zero", "some"), replay=rp, functions=FUNCS,
